@@ -19,6 +19,10 @@ OPTION_VALUES = {
     "piece-length": [None, "15", "32768"],
 }
 OPT_ORDER = list(OPTION_VALUES)
+# names of content roots that look like something else
+CONTENT_NAMES = ["Live: Vol 2", "http:", "udp:tracker", "c:",
+                 "a=b", "x y", "#hash", "2024", "true", "None", "@file",
+                 "a,b", "[config]", "top.torrent", "%41", "~user", "'q'"]
 # characters inside a value (never at its ends) that one of the routes might
 # take for structure
 SPECIAL_MID = ["\x0b", "\x0c", "\x1c", "\x1d", "\x1e", "\x85", "\u2028",
@@ -173,6 +177,8 @@ class OptionsCheck:
                        "tier": tier})
             gs.append({"kind": "values", "version": version, "seed": seed,
                        "tier": tier})
+            gs.append({"kind": "content-names", "version": version,
+                       "seed": seed, "tier": tier})
         return gs
 
     # routes -----------------------------------------------------------
@@ -432,6 +438,90 @@ class OptionsCheck:
                     shutil.rmtree(os.path.join(sandbox, n), ignore_errors=True)
         return res
 
+    def run_content_names(self, g, res, only=None):
+        """Content roots whose own names look like something else (a URL
+        scheme, an assignment, a number ...), given relative to the working
+        directory, with a list-valued flag directly before the path."""
+        import shutil
+        seed, version = g["seed"], g["version"]
+        sandbox = world.fresh_dir()
+        for cname in CONTENT_NAMES:
+            parent = os.path.join(sandbox, "pp")
+            os.makedirs(parent, exist_ok=True)
+            try:
+                root = world.materialize(payload(seed), parent, name=cname)
+            except OSError:
+                continue
+            outs = {}
+            url = "http://t1/announce"
+            variants = {
+                "kw": None,
+                "path-first": ["create", cname, "--announce", url],
+                "announce-then-path": ["create", "--announce", url, cname],
+                "announce2-then-path": ["create", "--announce", url,
+                                        "http://t2/announce", cname],
+                "config": "config",
+            }
+            for vname, argv in variants.items():
+                out = os.path.join(sandbox, f"o_{len(os.listdir(sandbox))}"
+                                            ".torrent")
+                cwd = os.getcwd()
+                os.chdir(parent)
+                tf.reset_process_state()
+                try:
+                    ann = [url, "http://t2/announce"] if "2" in vname \
+                        else [url]
+                    if vname == "kw":
+                        cls = tf.torrent.TorrentFile if version == "1" else \
+                            tf.torrent.TorrentAssembler
+                        with tf.quiet():
+                            cls(path=cname, announce=list(ann), outfile=out,
+                                meta_version=version, progress=0).write()
+                    elif argv == "config":
+                        cfg = os.path.join(sandbox, "c.ini")
+                        with open(cfg, "w") as f:
+                            f.write("[config]\nannounce =\n    " + url +
+                                    f"\nmeta-version = {version}\nout = "
+                                    f"{out}\n")
+                        tf.execute(["create", "--config", "--config-path",
+                                    cfg, "--prog", "0", cname])
+                    else:
+                        tf.execute(argv + ["--meta-version", version, "-o",
+                                           out, "--prog", "0"])
+                    with open(out, "rb") as f:
+                        outs[vname] = ("ok", normalise(f.read()))
+                except BaseException as e:  # noqa
+                    outs[vname] = ("raised:" + type(e).__name__, None)
+                finally:
+                    os.chdir(cwd)
+                res.transitions += 1
+                res.evals += 1
+                res.validated += 1
+            res.states += 1
+            case = {"kind": "content-names", "version": version,
+                    "seed": seed, "name": cname}
+            ref = outs["kw"]
+            ref2 = None
+            for vname, (st, m) in outs.items():
+                if vname == "kw":
+                    continue
+                want = ref
+                if "2" in vname:
+                    # two trackers: compare with the one-tracker result on
+                    # everything but the tracker fields
+                    if st == "ok" and ref[0] == "ok":
+                        m = dict(m)
+                        m[b"announce-list"] = ref[1].get(b"announce-list")
+                same = st == want[0] and (st != "ok" or m == want[1])
+                res.outcomes["names:" + ("same" if same else "differs")] += 1
+                if not same and not (only and only.get("route") != vname):
+                    res.violation(
+                        f"C20|{vname}|differs-from-keyword-route|v{version}|"
+                        f"content-name|{st}", dict(case, route=vname),
+                        (st, want[0]))
+            shutil.rmtree(parent, ignore_errors=True)
+        return res
+
     def run_values(self, g, res, only=None):
         """One option at a time with values whose characters mean something to
         one of the routes (line-boundary characters other than LF, `=`, `:`,
@@ -492,6 +582,8 @@ class OptionsCheck:
             return self.run_env(g, res)
         if g.get("kind") == "values":
             return self.run_values(g, res)
+        if g.get("kind") == "content-names":
+            return self.run_content_names(g, res)
         sandbox = world.fresh_dir()
         root = world.materialize(payload(seed), os.path.join(sandbox, "p"))
         version, align, outform = g["version"], g["align"], g["out"]
@@ -571,6 +663,14 @@ class OptionsCheck:
         return res
 
     def replay(self, case):
+        if case.get("kind") == "content-names":
+            res = self.run_content_names(
+                {"seed": case["seed"], "version": case["version"]},
+                core.Result(), only=case)
+            return [{"sig": v["sig"], "detail": v["detail"]}
+                    for v in res.violations
+                    if v["case"].get("name") == case.get("name")
+                    and v["case"].get("route") == case.get("route")]
         if case.get("kind") == "values":
             res = self.run_values({"seed": case["seed"],
                                    "version": case["version"]}, core.Result(),
